@@ -160,8 +160,9 @@ Definition KECCAK_RNDC : list Z := [
   0x8000000000008002; 0x8000000000000080; 0x000000000000800a; 0x800000008000000a;
   0x8000000080008081; 0x8000000000008080; 0x0000000080000001; 0x8000000080008008 ].
 
-(* st[i] and st[i] = v on the array represented by the list of its 25 elements (all indices used
-   below are literals < 25) *)
+(* st[i] and st[i] = v on the array represented by the list of its 25 elements.  Every index used
+   below is either a literal < 25 or m_pos, which the class invariant keeps < RATE_BUFFERS = 17
+   (relation Rl in proofs/CryptoSHA3Lemmas.v), so the default of nth is never reached *)
 Definition st_get (st : list Z) (i : nat) : Z := nth i st 0.
 Definition st_set (st : list Z) (i : nat) (v : Z) : list Z := firstn i st ++ v :: skipn (S i) st.
 
